@@ -9,11 +9,13 @@
 //!   ja=<jitter amplitude> js=<jitter seed>  grow=<extra call cost per round index>  skew=<extra call cost per thread index>
 //!   off=<o0,o1,..>  initial counter value per thread
 //!   x=<r:t:e,...>   extra ticks added to the first call of round r (0-based) on thread t (`*` = every thread)
+//!   al=<allocations per call>  alm=<only where (round + thread) % alm == 0; 0 = everywhere>
 //!   budget=<max calls of the benchmarked function over the whole case>  maxr=<max rounds>  (watchdog: the closure panics beyond)
 //!
-//! Output: `ok K=.. sizes=.. calls=.. rag=.. fs=.. dur=.. ak=.. cnt=.. ss=.. si=.. | vt=.. init=.. h=..`
+//! Output: `ok K=.. sizes=.. calls=.. rag=.. fs=.. dur=.. ai=.. cnt=.. ss=.. si=.. | vt=.. init=.. h=..`
+//! (`ai`: per recorded sample with allocation info `index:allocs:alloc_bytes:deallocs:grows:shrinks`)
 //! Everything before ` | ` is compared with the model; `h` is the recorded
-//! history (per round, per thread `start:end:counter_total`) which is fed to it.
+//! history (per round, per thread `start:end:counter_total:allocations`) which is fed to it.
 
 use std::cell::RefCell;
 use std::sync::atomic::{AtomicU64, Ordering};
@@ -22,6 +24,9 @@ use std::time::Duration;
 
 use divan::__verif as v;
 use divan::counter::ItemsCount;
+
+#[global_allocator]
+static ALLOC: divan::AllocProfiler = divan::AllocProfiler::system();
 
 const EV_GEN: u8 = v::ev::USER;
 const EV_CALL: u8 = v::ev::USER + 1;
@@ -40,6 +45,10 @@ struct Script {
     extra: Vec<(u64, Option<u32>, u64)>,
     budget: u64,
     max_rounds: u64,
+    /// allocations (each freed again) per call ...
+    al: u64,
+    /// ... on the threads/rounds with `(round + thread) % alm == 0` (`alm = 0`: everywhere)
+    alm: u64,
 }
 
 static SCRIPT: Mutex<Option<Script>> = Mutex::new(None);
@@ -121,7 +130,7 @@ fn gen_input() -> Inp {
 }
 
 fn call(_x: &mut Inp) {
-    let cost = enter(1, |s, r, i, t| {
+    let (cost, allocs) = enter(1, |s, r, i, t| {
         let mut c = s.c + s.grow * r + s.skew * t as u64;
         if s.ja > 0 {
             c += mix(s.js.wrapping_mul(31) ^ (r << 24) ^ ((t as u64) << 52) ^ i) % (s.ja + 1);
@@ -136,9 +145,13 @@ fn call(_x: &mut Inp) {
         if CALLS.fetch_add(1, Ordering::SeqCst) >= s.budget {
             panic!("call budget exceeded");
         }
-        c
+        let allocs = if s.al > 0 && (s.alm == 0 || (r + t as u64) % s.alm == 0) { s.al } else { 0 };
+        (c, allocs)
     });
-    v::log_event(EV_CALL, 0, 0);
+    v::log_event(EV_CALL, allocs, 0);
+    for _ in 0..allocs {
+        drop(std::hint::black_box(Box::new(0u64)));
+    }
     v::vclock_advance(cost);
 }
 
@@ -214,6 +227,8 @@ fn run_case(line: &str) -> String {
             }
             "budget" => sc.budget = val.parse().expect("budget"),
             "maxr" => sc.max_rounds = val.parse().expect("maxr"),
+            "al" => sc.al = val.parse().expect("al"),
+            "alm" => sc.alm = val.parse().expect("alm"),
             _ => panic!("unknown key {k}"),
         }
     }
@@ -226,7 +241,7 @@ fn run_case(line: &str) -> String {
     v::set_precision_override(Some(prec));
     v::set_overhead_override(Some(oh));
     v::log_take();
-    v::log_reserve(1 << 16);
+    v::log_reserve(1 << 18);
     v::vclock_set(off0);
     v::vclock_enable(freq, 0);
     v::log_enable(true);
@@ -262,6 +277,7 @@ fn run_case(line: &str) -> String {
         end: Option<u64>,
         calls: u64,
         ctotal: u128,
+        allocs: u64,
     }
     let mut init: Option<u64> = None;
     let mut per: Vec<Vec<Round>> = vec![Vec::new(); threads];
@@ -286,7 +302,7 @@ fn run_case(line: &str) -> String {
                 if per[t].last().map_or(false, |r| r.end.is_none()) {
                     bad = true;
                 }
-                per[t].push(Round { start: e.a, end: None, calls: 0, ctotal: std::mem::take(&mut pending_ct[t]) });
+                per[t].push(Round { start: e.a, end: None, calls: 0, ctotal: std::mem::take(&mut pending_ct[t]), allocs: 0 });
             }
             v::ev::CLOCK_END => match per[t].last_mut() {
                 Some(r) if r.end.is_none() => r.end = Some(e.a),
@@ -297,7 +313,10 @@ fn run_case(line: &str) -> String {
                 pending_ct[t] += e.a as u128;
             }
             EV_CALL => match per[t].last_mut() {
-                Some(r) if r.end.is_none() => r.calls += 1,
+                Some(r) if r.end.is_none() => {
+                    r.calls += 1;
+                    r.allocs += e.a;
+                }
                 _ => stray_calls[t] += 1,
             },
             _ => {}
@@ -322,7 +341,7 @@ fn run_case(line: &str) -> String {
         let mut row = Vec::new();
         for t in 0..threads {
             if let Some(x) = per[t].get(r) {
-                row.push(format!("{}:{}:{}", x.start, x.end.unwrap_or(0), x.ctotal));
+                row.push(format!("{}:{}:{}:{}", x.start, x.end.unwrap_or(0), x.ctotal, x.allocs));
             }
         }
         h.push(row.join(","));
@@ -333,14 +352,17 @@ fn run_case(line: &str) -> String {
     }
     let stats = dump.stats.as_ref();
     format!(
-        "ok K={} sizes={} calls={} rag={} fs={} dur={} ak={} cnt={} ss={} si={} | vt={} init={} h={}",
+        "ok K={} sizes={} calls={} rag={} fs={} dur={} ai={} cnt={} ss={} si={} | vt={} init={} h={}",
         k,
         join(sizes),
         join(calls),
         rag as u8,
         dump.sample_size,
         join(dump.durations.iter()),
-        join(dump.alloc_infos.iter().map(|(i, _)| *i)),
+        join(dump.alloc_infos.iter().map(|(i, a)| format!(
+            "{}:{}:{}:{}:{}:{}",
+            i, a.tallies[2].0, a.tallies[2].1, a.tallies[3].0, a.tallies[0].0, a.tallies[1].0
+        ))),
         join(dump.counts[3].iter()),
         stats.map_or("-".to_string(), |s| s.sample_count.to_string()),
         stats.map_or("-".to_string(), |s| s.iter_count.to_string()),
